@@ -105,7 +105,7 @@ def run(prog, rep):
     # assigned from their constructors on every path.  (p_spinlock_lock (NULL) and p_uthread_set_local (NULL, ...) fail silently:
     # with the spinlock missing the new thread reads the handle while the creator is still filling it in.)
     from plint.wiring import init_creates
-    made = dict((g, (ctor, okm, ln)) for (g, ctor, okm, ln) in init_creates(u.fn("p_uthread_init", raw=True)))
+    made = dict((g, (ctor, okm, ln)) for (g, ctor, okm, ln) in init_creates(u.fn("p_uthread_init")))
     for g, want in ((SPIN, "p_spinlock_new"), ("pp_uthread_specific_data", "p_uthread_local_new")):
         ctor, okm, ln = made.get(g, (None, False, u.fn("p_uthread_init").loc[0]))
         okm = okm and ctor == want
